@@ -14,12 +14,28 @@ CoverInit == c \in CaseSpace /\ pc = "gen" /\ idx = 1 /\ m = M0(c.o) /\ s = Blan
 CoverNext == pc = "gen" /\ PrintT(<<"TR", ToJson(CaseOut(c))>>) /\ pc' = "done" /\ UNCHANGED <<c, idx, m, s, out>>
 CoverSpec == CoverInit /\ [][CoverNext]_vars
 
+SimDefault == [rs |-> -1, re |-> -1, fill |-> 255, lane |-> "ALL", hdr |-> 0, e |-> -1, sum |-> FALSE,
+               fops |-> <<>>, seg |-> 1]
+\* ---- filter operations (FilterList.tla): one fixed file with a record of each of the families a b c d and an
+\* unlisted one, every operation sequence of FPatterns / BigPatterns, explicit and automatic window
+FiltItems(fams) == [k \in 1..Len(fams) |-> [k |-> "D", cpu |-> fams[k], seg |-> 1, gran |-> 1, start |-> 4 * (k - 1),
+                                             data |-> Pat(k, 2)]]
+FiltCase(fams, fo, rg) == [files |-> <<[off |-> 0, items |-> FiltItems(fams)]>>,
+                           o |-> [SimDefault EXCEPT !.fops = fo, !.rs = rg[1], !.re = rg[2]]]
+FiltCases == {FiltCase(<<81, 97, 112, 17, 200>>, fo, rg) : fo \in FPatterns(81, 97, 112, 17, 200), rg \in {<<-1, -1>>, <<0, 19>>}}
+             \cup {FiltCase(<<1, 50, 100, 7, 93, 200>>, fo, <<0, 23>>) : fo \in BigPatterns}
+FiltInit == c \in FiltCases /\ pc = "gen" /\ idx = 1 /\ m = M0(c.o) /\ s = Blank /\ out = NoOut
+FiltSpec == FiltInit /\ [][CoverNext]_vars
+
 \* ---- sim ------------------------------------------------------------------------------------------
 \* Step 0 fixes the granularity G of the CODE segment (records of other segments take any granularity, so
 \* `-segment data` still meets mixed granularities), the filter and the segment; steps 1..SimRecs add an item
 \* or open another input file with an (offset); then -r, -m/-l, -S/-e/-s; the last step only marks the case
 \* finished so that exactly one successor is printed per simulated behaviour.
 SimRecs == 4
+SimFOps == {<<FA(<<81>>)>>, <<FA(<<97>>)>>, <<FA(<<81, 112>>)>>, <<FA(<<1>>)>>, <<FA(<<129>>)>>,
+            <<FA(<<81, 97, 112>>), FC(<<81>>)>>, <<FA(<<81, 97, 112>>), FC(<<97>>)>>, <<FEA(<<81, 97, 112>>), FC(<<112>>)>>,
+            <<FEA(<<97, 81>>), FEC(<<97>>), FA(<<112>>)>>, <<FA(<<81, 97>>), FC(<<81, 97>>)>>, <<FA(<<97, 112, 81>>), FC(<<97>>), FA(<<97>>)>>}
 SimStarts == 0..9 \cup {12, 15, 16, 17, 20, 24, 31, 32, 33, 40}
 SimCS == {<<81, 1>>, <<97, 1>>, <<81, 2>>, <<112, 1>>}
 SimShapes(G) == {sh \in [k : {"D"}, start : SimStarts, units : {0, 1, 2, 4, 8}, gran : {1, 2, 4}, cs : SimCS] :
@@ -27,8 +43,6 @@ SimShapes(G) == {sh \in [k : {"D"}, start : SimStarts, units : {0, 1, 2, 4, 8}, 
                 \cup [k : {"E"}, addr : {4660, 74565}]
 SimLo == {-1, 0, 4, 8, 12, 16, 20, 24, 32, 1, 2, 6}
 SimHi == {-1, 3, 7, 11, 15, 19, 23, 31, 39, 47, 5, 12}
-SimDefault == [rs |-> -1, re |-> -1, fill |-> 255, lane |-> "ALL", hdr |-> 0, e |-> -1, sum |-> FALSE,
-               filt |-> <<>>, seg |-> 1]
 NItems(cc) == Sum([i \in 1..Len(cc.files) |-> Len(cc.files[i].items)])
 SimInit == /\ c = [files |-> <<[off |-> 0, items |-> <<>>]>>, o |-> SimDefault]
            /\ pc = "sim" /\ idx = 0 /\ m = M0(SimDefault) /\ s = Blank /\ out = NoOut
@@ -37,10 +51,10 @@ SimNext ==
   /\ LET nf == Len(c.files) IN
      CASE idx = 0 ->
             /\ UNCHANGED pc
-            /\ \E G \in {1, 2, 4}, f \in {<<>>, <<81>>, <<97>>, <<81, 112>>, <<1>>, <<129>>}, sg \in {1, 2}, w \in 1..3 :
+            /\ \E G \in {1, 2, 4}, f \in SimFOps, sg \in {1, 2}, w \in 1..3 :
                   \* w only weights the choice: no filter / CODE twice as likely
                   /\ m' = [m EXCEPT !.maxgran = G]                 \* m.maxgran carries G during generation
-                  /\ c' = [c EXCEPT !.o.filt = IF w = 1 THEN f ELSE <<>>, !.o.seg = IF w = 3 THEN sg ELSE 1]
+                  /\ c' = [c EXCEPT !.o.fops = IF w = 1 THEN f ELSE <<>>, !.o.seg = IF w = 3 THEN sg ELSE 1]
        [] idx \in 1..SimRecs ->
             /\ UNCHANGED <<pc, m>>
             /\ \/ \E sh \in SimShapes(m.maxgran) :
